@@ -341,6 +341,11 @@ def forms():
                                                + 16 * (sorted(_ab().dict({"b": x[0], "a": x[1]}).keys()) == ["a", "b"])
                                                + 32 * ([k for k in _ab().dict({"b": x[0], "a": x[1]})] == ["b", "a"])),
         "dict items": lambda m, x: _ab().list([_tup(k, v * 2.0) for k, v in sorted(_ab().dict({"b": x[0], "a": x[1, 1]}).items())]),
+        # iteration order of a traced dict is its insertion order (keys inserted in non-sorted order)
+        "dict order values": lambda m, x: sum(w_ * v for w_, v in zip((1.0, 10.0, 100.0), _ab().dict({"w": x[0], "b": x[1], "a": x[0] * 2.0}).values())),
+        "dict order keys": lambda m, x: x * float(["w", "b", "a"].index(list(_ab().dict({"w": x[0], "b": 1.0, "a": x[1]}).keys())[0]) + 1)
+                                             + x[0, 0] * float("".join(k for k in _ab().dict({"z": x[0], "c": x[1], "m": 2.0})) == "zcm"),
+        "dict order items": lambda m, x: _ab().list([v * (i + 1.0) for i, (k, v) in enumerate(_ab().dict({"q": x[0], "d": x[1, 1], "k": x[1]}).items())]),
         "dict empty": lambda m, x: _tup(_ab().dict({}), _ab().dict(), x[0]),
         "dict kwargs": lambda m, x: _ab().dict(a=x[0], b=2.0),
         "dict pairs": lambda m, x: _ab().dict([("a", x[0]), ("b", x[1, 0])]),
@@ -482,7 +487,7 @@ def isinstance_body(c):
 def tests():
     out = [Test("val:" + name, partial(_body, t), quick=100 * t.weight, thorough=800 * t.weight, shard_size=200)
            for name, t in sorted(TEMPLATES.items())]
-    out.append(Test("forms", forms_body, quick=1500, thorough=15000, shard_size=250))
+    out.append(Test("forms", forms_body, quick=4000, thorough=30000, shard_size=250))
     out.append(Test("isinstance", isinstance_body, quick=300, thorough=2000, shard_size=150))
     return out
 
